@@ -97,6 +97,8 @@ Inductive doc :=
   | DStop (run : nat) (st : exit_st) (rs : reason_t) (num : list (nat * nat)).
 
 Inductive tres := TReturn (v : val) | TRaise (e : exn).
+(* ghost: why the engine was last marked interrupted *)
+Inductive cause := CzPause | CzAbort | CzStop | CzHalt | CzFailedPause.
 Inductive mainact := ACall (pid : nat) | AResume | AAbort | AStop | AHalt.
 Inductive out_t :=
   | OutReturn (uids : list nat) | OutInterrupted | OutRaise (e : exn).
@@ -249,6 +251,10 @@ Record st := {
   futs : list (nat * bool);                (* suspension id -> released? *)
   uid_supply : nat; run_uids : list nat; record_intr : bool; pardon : bool;
   mreq : option (exn + list nat); was_paused : bool; main_err : option exn; exit_reason_set : bool;
+  (* ghost state (never read by the model's control flow) *)
+  icause : option cause;        (* last accepted interruption *)
+  late_pause : bool;            (* a pause was accepted while `_run` was in its final sleep *)
+  intr_err : bool;              (* record_interruption raised KeyError inside a request *)
   dst : D }.
 
 Definition init (d : D) (pausable stageable : list nat) (rec : bool) : st :=
@@ -259,7 +265,8 @@ Definition init (d : D) (pausable stageable : list nat) (rec : bool) : st :=
      staged := []; moved := []; pausables := pausable; stageables := stageable; seen := [];
      groups := []; statuses := []; failed_seen := []; futs := [];
      uid_supply := 0; run_uids := []; record_intr := rec; pardon := false;
-     mreq := None; was_paused := false; main_err := None; exit_reason_set := false; dst := d |}.
+     mreq := None; was_paused := false; main_err := None; exit_reason_set := false;
+     icause := None; late_pause := false; intr_err := false; dst := d |}.
 
 (* record update helpers (one per field that changes) *)
 Definition upd (s : st)
@@ -273,7 +280,8 @@ Definition upd (s : st)
      staged := staged s; moved := moved s; pausables := pausables s; stageables := stageables s; seen := seen s;
      groups := groups s; statuses := statuses s; failed_seen := failed_seen s; futs := futs s;
      uid_supply := uid_supply s; run_uids := run_uids s; record_intr := record_intr s; pardon := pardon s;
-     mreq := mreq s; was_paused := was_paused s; main_err := main_err s; exit_reason_set := exit_reason_set s; dst := dst s |}.
+     mreq := mreq s; was_paused := was_paused s; main_err := main_err s; exit_reason_set := exit_reason_set s;
+     icause := icause s; late_pause := late_pause s; intr_err := intr_err s; dst := dst s |}.
 
 Definition set_state_raw (s : st) (x : rstate) : st :=
   upd s x (pc s) (must_cancel s) (permit s) (blocking s) (plans s) (resps s) (cache s) (rewindable s)
@@ -328,7 +336,8 @@ Definition upd2 (s : st) (bundlers' : list (nat * bundler)) (staged' moved' seen
      staged := staged'; moved := moved'; pausables := pausables s; stageables := stageables s; seen := seen';
      groups := groups'; statuses := statuses'; failed_seen := failed_seen s; futs := futs';
      uid_supply := uid_supply'; run_uids := run_uids'; record_intr := record_intr s; pardon := pardon';
-     mreq := mreq s; was_paused := was_paused s; main_err := main_err s; exit_reason_set := exit_reason_set s; dst := dst' |}.
+     mreq := mreq s; was_paused := was_paused s; main_err := main_err s; exit_reason_set := exit_reason_set s;
+     icause := icause s; late_pause := late_pause s; intr_err := intr_err s; dst := dst' |}.
 
 Definition set_bundlers (s : st) (x : list (nat * bundler)) : st :=
   upd2 s x (staged s) (moved s) (seen s) (groups s) (statuses s) (futs s) (uid_supply s) (run_uids s) (pardon s) (dst s) (task_set s).
@@ -352,6 +361,20 @@ Definition set_dst (s : st) (x : D) : st :=
   upd2 s (bundlers s) (staged s) (moved s) (seen s) (groups s) (statuses s) (futs s) (uid_supply s) (run_uids s) (pardon s) x (task_set s).
 Definition set_task_set (s : st) (x : bool) : st :=
   upd2 s (bundlers s) (staged s) (moved s) (seen s) (groups s) (statuses s) (futs s) (uid_supply s) (run_uids s) (pardon s) (dst s) x.
+
+Definition set_ghost (s : st) (c : option cause) (lp ie : bool) : st :=
+  {| state := state s; pc := pc s; must_cancel := must_cancel s; permit := permit s; blocking := blocking s; task_set := task_set s;
+     plans := plans s; resps := resps s; cache := cache s; rewindable := rewindable s;
+     exc_slot := exc_slot s; stashed := stashed s; interrupted := interrupted s; deferred := deferred s;
+     exit_status := exit_status s; reason := reason s; bundlers := bundlers s;
+     staged := staged s; moved := moved s; pausables := pausables s; stageables := stageables s; seen := seen s;
+     groups := groups s; statuses := statuses s; failed_seen := failed_seen s; futs := futs s;
+     uid_supply := uid_supply s; run_uids := run_uids s; record_intr := record_intr s; pardon := pardon s;
+     mreq := mreq s; was_paused := was_paused s; main_err := main_err s; exit_reason_set := exit_reason_set s;
+     icause := c; late_pause := lp; intr_err := ie; dst := dst s |}.
+(* mark interrupted, remembering why (ghost) *)
+Definition interrupt (s : st) (c : cause) : st :=
+  set_ghost (set_interrupted s true) (Some c) (late_pause s) (intr_err s).
 
 Definition resumable (s : st) : bool := match cache s with Some _ => true | None => false end.
 
@@ -540,12 +563,14 @@ Definition request_pause (s : st) (defer : bool) : st * option exn * list obs :=
   if negb (allowed (state s) Pausing) then (s, Some ETransition, [])
   else if defer then (set_deferred s true, None, [])
   else
-    let s1 := set_interrupted (set_deferred s false) true in
+    let s1 := interrupt (set_deferred s false) CzPause in
+    let s1 := match pc s1 with PcFinalSleep _ => set_ghost s1 (icause s1) true (intr_err s1) | _ => s1 end in
     match set_state s1 Pausing with
     | None => (s1, Some ETransition, [])
     | Some (s2, o1) =>
         let '(s3, o2, ok) := record_interruptions s2 in
-        if ok then (cancel_task s3, None, o1 ++ o2) else (s3, Some EOther, o1 ++ o2)
+        if ok then (cancel_task s3, None, o1 ++ o2)
+        else (set_ghost s3 (icause s3) (late_pause s3) true, Some EOther, o1 ++ o2)
     end.
 
 (* the part of RunBundler.read after the describe/config caches are filled *)
@@ -737,7 +762,8 @@ Definition set_main (s : st) (mreq' : option (exn + list nat)) (was_paused' : bo
      staged := staged s; moved := moved s; pausables := pausables s; stageables := stageables s; seen := seen s;
      groups := groups s; statuses := statuses s; failed_seen := failed_seen s; futs := futs s;
      uid_supply := uid_supply s; run_uids := run_uids s; record_intr := record_intr s; pardon := pardon s;
-     mreq := mreq'; was_paused := was_paused'; main_err := main_err'; exit_reason_set := ers; dst := dst s |}.
+     mreq := mreq'; was_paused := was_paused'; main_err := main_err'; exit_reason_set := ers;
+     icause := icause s; late_pause := late_pause s; intr_err := intr_err s; dst := dst s |}.
 Definition set_mreq (s : st) (x : option (exn + list nat)) : st := set_main s x (was_paused s) (main_err s) (exit_reason_set s).
 Definition set_ers (s : st) (x : bool) : st := set_main s (mreq s) (was_paused s) (main_err s) x.
 
@@ -825,7 +851,7 @@ Fixpoint drive (fuel : nat) (s : st) (c : ctl) (os : list obs) : st * list obs :
     match c with
     | CTop =>
         if (rstate_eqb (state s) Pausing || rstate_eqb (state s) Suspending) && negb (resumable s) then
-          let s1 := set_stashed (set_permit s true) (Some EFailedPause) in
+          let s1 := set_ghost (set_stashed (set_permit s true) (Some EFailedPause)) (Some CzFailedPause) (late_pause s) (intr_err s) in
           match set_state s1 Aborting with
           | Some (s2, o) => drive fuel' s2 CTop (os ++ o)
           | None => drive fuel' s1 (CExit (XExn ETransition)) os
@@ -995,11 +1021,11 @@ Definition task_step (s : st) : st * list obs :=
       if cancelled then drive (FUEL s0) s0 (CCancelled false) [] else drive (FUEL s0) s0 CAfterSleep []
   | PcPaused =>
       if cancelled then drive (FUEL s0) s0 (CExit (XExn ECancelled)) []
+      else if negb (permit s0) then (s, [OBad 5])      (* not enabled: the task waits for the run permit *)
       else
-        let bad := if permit s0 then [] else [OBad 5] in
         match (if rstate_eqb (state s0) Paused then set_state s0 Running else Some (s0, [])) with
-        | Some (s1, o) => drive (FUEL s1) s1 CBody (bad ++ o)
-        | None => drive (FUEL s0) s0 (CExit (XExn ETransition)) bad
+        | Some (s1, o) => drive (FUEL s1) s1 CBody o
+        | None => drive (FUEL s0) s0 (CExit (XExn ETransition)) []
         end
   | PcCmd k =>
       if cancelled then
@@ -1047,11 +1073,11 @@ Definition clear_call (s : st) : st :=
   let s1 := upd s (state s) PcNone false (permit s) (blocking s) [] [] (Some []) (rewindable s)
                 None (stashed s) false false XSuccess RsEmpty in
   let s2 := upd2 s1 (bundlers s1) [] [] [] [] [] (futs s1) (uid_supply s1) [] false (dst s1) false in
-  set_main s2 None false None false.
+  set_ghost (set_main s2 None false None false) None false false.
 
 Definition step (s : st) (e : event) : st * list obs :=
   match e with
-  | EvPermit => (set_permit s true, [])
+  | EvPermit => (set_blocking (set_permit s true) false, [])   (* _resume_task: blocking_event.clear(); then run_permit.set *)
   | EvResumeTask => (set_blocking s false, [])
   | EvTask => task_step s
   | EvRelease sid => (set_futs s (aset sid true (futs s)), [])
@@ -1066,7 +1092,7 @@ Definition step (s : st) (e : event) : st * list obs :=
   | EvReqAbort rs =>
       if rstate_eqb (state s) Idle then req_result s (Some ETransition)
       else
-        let s1 := set_exit (set_interrupted s true) XAbort rs in
+        let s1 := set_exit (interrupt s CzAbort) XAbort rs in
         let wp := rstate_eqb (state s1) Paused in
         match set_state s1 Aborting with
         | None => req_result s1 (Some ETransition)
@@ -1077,7 +1103,7 @@ Definition step (s : st) (e : event) : st * list obs :=
   | EvReqStop =>
       if rstate_eqb (state s) Idle then req_result s (Some ETransition)
       else
-        let s1 := set_interrupted s true in
+        let s1 := interrupt s CzStop in
         let wp := rstate_eqb (state s1) Paused in
         match set_state s1 Stopping with
         | None => req_result s1 (Some ETransition)
@@ -1088,7 +1114,7 @@ Definition step (s : st) (e : event) : st * list obs :=
   | EvReqHalt =>
       if rstate_eqb (state s) Idle then req_result s (Some ETransition)
       else
-        let s1 := set_interrupted s true in
+        let s1 := interrupt s CzHalt in
         let wp := rstate_eqb (state s1) Paused in
         match set_state s1 Halting with
         | None => req_result s1 (Some ETransition)
@@ -1100,7 +1126,7 @@ Definition step (s : st) (e : event) : st * list obs :=
       let s0 := set_futs s (if amem sid (futs s) then futs s else aset sid false (futs s)) in
       let r1 : st * option exn * list obs :=
         if negb (resumable s0) then
-          let s1 := set_exc_slot (set_interrupted s0 true) (Some EFailedPause) in
+          let s1 := set_exc_slot (interrupt s0 CzFailedPause) (Some EFailedPause) in
           let wp := rstate_eqb (state s1) Paused in
           match set_state s1 Aborting with
           | None => (s1, Some ETransition, [])
